@@ -90,23 +90,58 @@ def _run_lemma(w, c, out):
         extra = []
         if isinstance(goal, tuple):
             extra, goal = goal
-        r, s = verify._check_z3(w.axioms() + list(extra), [], goal, verify.Z3_TIMEOUT_MS)
+        r, s = verify._check_z3(w.axioms() + list(extra), [], goal, min(verify.Z3_TIMEOUT_MS, 5000))
         status, backend, note = "discharged", "z3", ""
         if r == z3.sat:
             status, note = "refuted", str(s.model())[:800]
         elif r != z3.unsat:
-            r2 = verify._check_cvc5(s, verify.CVC5_TIMEOUT_S)
-            if r2 == "unsat":
-                backend = "cvc5"
-            elif r2 == "sat":
-                status, backend = "refuted", "cvc5"
+            # cheap counterexample search: specialise the integer constants of the goal to small values
+            # (a model of a specialisation is a model of the goal)
+            found = None
+            ints = _int_consts(goal)
+            ground = [a for a in w.axioms() if not z3.is_quantifier(a)]
+            rs, ss = verify._check_z3(ground + list(extra), [], goal, 3000)
+            if rs == z3.sat:
+                found = ss.model()
+            if found is None and 0 < len(ints) <= 3:
+                import itertools
+                for vals in itertools.product((2, 1, 0), repeat=len(ints)):
+                    rs, ss = verify._check_z3(ground + list(extra) + [c == v for c, v in zip(ints, vals)], [], goal, 2000)
+                    if rs == z3.sat:
+                        found = ss.model()
+                        break
+            if found is not None:
+                status, note = "refuted", str(found)[:800]
             else:
-                status, note = "unknown", f"z3: {s.reason_unknown()}; cvc5: {r2}"
+                r2 = verify._check_cvc5(s, verify.CVC5_TIMEOUT_S)
+                if r2 == "unsat":
+                    backend = "cvc5"
+                elif r2 == "sat":
+                    status, backend = "refuted", "cvc5"
+                else:
+                    status, note = "unknown", f"z3: {s.reason_unknown()}; cvc5: {r2}"
         d = {"oid": f"{c.fid}#lemma:{nm}", "kind": "lemma", "status": status, "backend": backend, "time": time.time() - t0, "instances": 1, "trivial": 0, "note": note}
         if status == "refuted":
             d["args"], d["replay"], d["formula"] = None, None, str(goal)[:1500]
         out["obls"].append(d)
     out["time"] = time.time() - t0
+    return out
+
+
+def _int_consts(f):
+    import z3
+    seen, out, stack = set(), [], [f]
+    while stack:
+        t = stack.pop()
+        if t.get_id() in seen:
+            continue
+        seen.add(t.get_id())
+        if z3.is_const(t) and t.decl().kind() == z3.Z3_OP_UNINTERPRETED and t.sort() == z3.IntSort():
+            out.append(t)
+        elif z3.is_app(t):
+            stack.extend(t.children())
+        elif z3.is_quantifier(t):
+            stack.append(t.body())
     return out
 
 
